@@ -278,6 +278,37 @@ pub fn eval_doc<I: Inputs>(vt: &'static Vt<I>, d: &Doc) -> Outcome {
                 (Ok(_), false) => "decodes-accepted",
             };
             let nontrivial = expected.is_err() || changed || nested;
+            // history: an existing valid value, then deserialize_in_place with this document — afterwards the
+            // value is what the constructor yields for the document, or (on failure) still a valid value
+            if d.pos == Pos::Top {
+                if let (Some(dip), Some(start)) = (vt.de_in_place, valid_start(vt)) {
+                    if let Ok(Some((ok, after))) = no_panic(|| dip(start.clone(), d.fmt, &d.bytes)) {
+                        // "untouched": equal to what the constructor stored for the start input; for idempotent
+                        // chains a different but valid (fixed-point) value would also respect the guards
+                        let stored = no_panic(|| (vt.ctor)(start.clone())).ok().and_then(|r| r.ok());
+                        let untouched = stored.as_ref().map_or(false, |s| s.same(&after));
+                        let has_custom_san = vt.model.sans.iter().any(|s| matches!(s, San::With { .. }));
+                        let still_valid = untouched || (!has_custom_san && matches!(no_panic(|| (vt.ctor)(after.clone())), Ok(Ok(ref x)) if x.same(&after)));
+                        let bad = match (&expected, ok) {
+                            (Ok(e), true) => !(e.len() == 1 && e[0].same(&after)),
+                            (Err(_), true) => true,
+                            (_, false) => !still_valid,
+                        };
+                        if bad {
+                            return Outcome::fail(
+                                true,
+                                class,
+                                sig(d, "deserialize_in_place-leaves-or-yields-wrong-value"),
+                                match &expected {
+                                    Ok(e) => format!("Ok({:?})", e.iter().map(|x| x.to_json()).collect::<Vec<_>>()),
+                                    Err(_) => format!("Err, existing value {} untouched or still valid", start.to_json()),
+                                },
+                                format!("succeeded={ok}, value afterwards {}", after.to_json()),
+                            );
+                        }
+                    }
+                }
+            }
             match (expected, got) {
                 (_, Err(p)) => Outcome::fail(nontrivial, class, sig(d, "panic"), "no panic".into(), format!("panic: {}", p.lines().next().unwrap_or(""))),
                 (Err(e), Ok(Ok(v))) => Outcome::fail(nontrivial, class, sig(d, "yields-value-the-constructor-rejects"), format!("Err (constructor: {})", e.show()), format!("Ok({:?})", v.iter().map(|x| x.to_json()).collect::<Vec<_>>())),
@@ -293,4 +324,22 @@ pub fn eval_doc<I: Inputs>(vt: &'static Vt<I>, d: &Doc) -> Outcome {
             }
         }
     }
+}
+
+thread_local! {
+    static VALID_START: std::cell::RefCell<std::collections::HashMap<&'static str, Option<serde_json::Value>>> = Default::default();
+}
+
+/// some raw input the constructor accepts (cached per declaration)
+fn valid_start<I: Inputs>(vt: &'static Vt<I>) -> Option<I> {
+    let cached = VALID_START.with(|c| c.borrow().get(vt.id).cloned());
+    let j = match cached {
+        Some(j) => j,
+        None => {
+            let found = I::systematic(vt.model, Tier::Quick).into_iter().find(|v| matches!(no_panic(|| (vt.ctor)(v.clone())), Ok(Ok(_)))).map(|v| InnerTy::to_json(&v));
+            VALID_START.with(|c| c.borrow_mut().insert(vt.id, found.clone()));
+            found
+        }
+    };
+    j.and_then(|j| I::from_json(&j))
 }
